@@ -614,3 +614,106 @@ func c02DecideByTime(c *Ctx) {
 			"no value-dependent input", "a merge decision depends on "+offending+": the winner of a column is no longer chosen by write time alone (e.g. equal values keep the older assignment time, so a write in between wins later)")
 	}
 }
+
+// ---- C02.update-keeps-status: only INSERT and DELETE date the row's existence --------------------------
+
+func init() {
+	register(&Rule{Name: "C02.update-keeps-status", Min: 3, Run: c02UpdateKeepsStatus,
+		Doc: "the delta row of an UPDATE carries the stored row's own insert/delete time, so it never wins the delete-status comparison; the deltas of INSERT and DELETE carry the statement's time"})
+	byProp["C02"] = append(byProp["C02"], "C02.update-keeps-status")
+	byProp["C01"] = append(byProp["C01"], "C02.update-keeps-status")
+	explain["C02"] += " update-keeps-status: MergeRows decides the row's status by the later of the two sides' status times (entry time + DeleteUpdateOffset). A delta row whose offset is left zero claims 'the row exists as of the statement's time' — right for INSERT, and with Deleted set for DELETE, but an UPDATE that does so refreshes the row's existence and wins against a DELETE it has not seen ('a DELETE keeps the row absent, even against UPDATEs carrying a later write time'). In Update the delta's DeleteUpdateOffset is assigned from the stored row's offset, the stored entry's time and the statement time; in Insert and Delete it is not assigned."
+}
+
+func c02UpdateKeepsStatus(c *Ctx) {
+	const rule = "C02.update-keeps-status"
+	duo := mustField(c, "proto/v1", "Row", "DeleteUpdateOffset")
+	getRow := mustFunc(c, "", "", "getRow")
+	if duo == nil || getRow == nil {
+		return
+	}
+	for _, m := range []string{"Insert", "Update", "Delete"} {
+		fn := mustFunc(c, "", "*VirtualTable", m)
+		if fn == nil {
+			continue
+		}
+		name := core.FuncName(fn)
+		sc := c.Scope(fn)
+		// the delta row: the allocation whose address is MergeRows' r2
+		var delta ssa.Value
+		var oldAlloc, otAlloc ssa.Value
+		for _, call := range sc.Calls() {
+			f := call.Common().StaticCallee()
+			if f == nil {
+				continue
+			}
+			switch {
+			case f.Name() == "MergeRows":
+				a := call.Common().Args
+				if len(a) >= 5 {
+					delta = a[4]
+				}
+			case f == getRow:
+				for _, a := range call.Common().Args {
+					pt, ok := a.Type().(*types.Pointer)
+					if !ok {
+						continue
+					}
+					if p2, ok := pt.Elem().(*types.Pointer); ok {
+						if nt := an.NamedOf(p2); nt != nil && nt.Obj().Name() == "Row" {
+							oldAlloc = a
+						}
+					} else if nt := an.NamedOf(pt.Elem()); nt != nil && nt.Obj().Name() == "Time" {
+						otAlloc = a
+					}
+				}
+			}
+		}
+		if delta == nil {
+			c.R.Unk(rule, name+": delta row", c.P.Pos(fn.Pos()), "no MergeRows call found")
+			continue
+		}
+		var stores []*ssa.Store
+		for _, f := range sc.Funcs {
+			for _, st := range an.StoresToField(f, duo) {
+				if fa, ok := st.Addr.(*ssa.FieldAddr); ok && an.Unwrap(fa.X) == an.Unwrap(delta) {
+					stores = append(stores, st)
+				}
+			}
+		}
+		if m != "Update" {
+			c.R.Cond(len(stores) == 0, rule, name+": the statement dates the row's status", c.P.Pos(fn.Pos()),
+				"the delta's DeleteUpdateOffset is left zero: status time = statement time", "the delta's delete-status time is not the statement's own time")
+			continue
+		}
+		good := false
+		why := "the delta row of UPDATE leaves DeleteUpdateOffset zero, i.e. claims 'the row exists as of this statement': merged with a DELETE the updating writer has not seen, the UPDATE wins the status comparison and the deleted row comes back (A: insert@1; B opens; A: delete@5; B: update@9 -> a reader that merges both sees the row with B's values)"
+		for _, st := range stores {
+			fromOld, fromOt := false, false
+			an.DependsOn(st.Val, func(v ssa.Value) bool {
+				if an.FieldOfLoad(v) == duo {
+					// loaded from the stored row (through the **Row out-parameter)
+					if r := an.ExprRoot(v); oldAlloc != nil && r == an.Unwrap(oldAlloc) {
+						fromOld = true
+					} else if ld, ok := r.(*ssa.UnOp); ok && oldAlloc != nil && ld.X == oldAlloc {
+						fromOld = true
+					}
+				}
+				if ld, ok := v.(*ssa.UnOp); ok && otAlloc != nil && ld.X == otAlloc {
+					fromOt = true
+				}
+				return false
+			})
+			if fromOld && fromOt {
+				good = true
+			} else {
+				why = fmt.Sprintf("the delta's DeleteUpdateOffset is assigned, but not from the stored row's own status time (stored offset: %v, stored entry time: %v)", fromOld, fromOt)
+			}
+		}
+		pos := c.P.Pos(fn.Pos())
+		if len(stores) > 0 {
+			pos = c.P.Pos(stores[0].Pos())
+		}
+		c.R.Cond(good, rule, name+": keeps the stored row's insert/delete time", pos, "DeleteUpdateOffset of the delta = stored status time - statement time", why)
+	}
+}
